@@ -476,3 +476,34 @@ for _pid, _name, _rule, _title in (("C12", "remarshal", "remarshal", "re-marshal
         level="proof", lean_module="RefmtProofs.Props." + _pid, theorems=[],
         streams=[dict(name=_name, gen=_name, rule=_rule)], title=_title, claim="(work in progress)",
         rule_text="(see DESIGN.md)")
+
+def rule_autogen(body, I, M):
+    i = I.get("I", "")
+    if _isdef(body, i):
+        return dict(corr_ok=True, prop_ok=True, nontrivial=False, bucket="def", why="")
+    if body.startswith("roundtrip "):
+        return rule_roundtrip(body, I, M)
+    if _bad_impl(i):
+        return dict(corr_ok=False, prop_ok=False, nontrivial=True, bucket="crash", why="implementation " + i)
+    corr_ok = (i == M.get("M"))
+    o = I.get("O", "ok")
+    prop_ok, why = (o == "ok"), ("oracle: " + o[:200] if o != "ok" else "")
+    srt = lambda x: ";".join(sorted((x or "-").split(";")))
+    if prop_ok and M.get("S") is not None and srt(i) != srt(M.get("S")):
+        prop_ok, why = False, "mapping %s differs from the promotion rule %s" % (i[:120], M.get("S")[:120])
+    if not corr_ok and not why:
+        why = "implementation and model differ"
+    return dict(corr_ok=corr_ok, prop_ok=prop_ok, nontrivial=(";" in i), bucket=("multi" if ";" in i else "small"), why=why)
+RULES["autogen"] = rule_autogen
+
+PROPS["C19"] = dict(
+    disabled=True, na_reason="model and correspondence tie built; theorems are being proved",
+    level="proof", lean_module="RefmtProofs.Props.C19", theorems=[],
+    streams=[dict(name="autogen", gen="autogen", rule="autogen")],
+    title="autogenerated struct mappings follow Go's embedding and tag rules", claim="(work in progress)",
+    rule_text="400 generated families (1674 struct types, compiled Go source: up to 3 levels of embedding by value and by pointer, "
+              "exported and unexported embedded types, shared sub-structs (diamonds), embedded non-struct types, colliding names and tags, "
+              "'-' and ',omitempty', invalid tag names, non-ASCII field names) plus the zoo structs x 3 sort modes; mapping compared with the "
+              "Lean BFS model, with the Lean promotion-rule spec and with an independent Go implementation of the promotion rule; then values "
+              "of the root types (embedded pointers nil and non-nil) round-tripped through the autogenerated atlases in both formats",
+)
